@@ -1319,7 +1319,11 @@ insert_list:
         rq.current->error_number = 0;
         auto sw = AtomicRunQ(rq).goto_next();
         switch_context(sw.from, sw.to);
-        return rq.current->error_number;
+        // consume the interrupt (if any): it must not be
+        // delivered once more to a later sleep
+        auto e = rq.current->error_number;
+        rq.current->error_number = 0;
+        return e;
     }
 
     __attribute__((noinline))
@@ -1352,7 +1356,9 @@ insert_list:
         if_update_now();
         rq.current->error_number = 0;
         switch_context(sw.from, sw.to);
-        return rq.current->error_number;
+        auto e = rq.current->error_number;
+        rq.current->error_number = 0;
+        return e;
     }
 
     __attribute__((always_inline)) inline
